@@ -255,6 +255,10 @@ def bandlimited_rms(r, psd, wllow=None, wlhigh=None, flow=None, fhigh=None):
         c2 = tuple(c2)
         pt1 = r[c]
         pt2 = r[c2]
+        # the frequency step along the other axis differs when the data is not square
+        c3 = list(c)
+        c3[1] = c3[1] - 1
+        dx2 = abs(r[tuple(c3)] - pt1)
     else:
         c = r.shape[0]//2
         pt1 = r[c]
@@ -267,7 +271,7 @@ def bandlimited_rms(r, psd, wllow=None, wlhigh=None, flow=None, fhigh=None):
     reduced = trapz(work, dx=dx, axis=0)
 
     if r.ndim == 2:
-        reduced = trapz(reduced, dx=dx, axis=0)
+        reduced = trapz(reduced, dx=dx2, axis=0)
 
     return np.sqrt(reduced)
 
